@@ -14,6 +14,9 @@ from .report import AnalysisError
 from .srcmodel import unparse, fold_const
 
 
+TOUCHED = set()      # qualnames of the functions evaluated since the last reset - used by the thorough sweep
+
+
 class Unsupported(AnalysisError):
     pass
 
@@ -204,6 +207,7 @@ class FDE:
 
     # -- evaluation ----------------------------------------------------------------------
     def _invoke(self, fi, args, kwargs, base_env=None):
+        TOUCHED.add(fi.qualname)
         self.depth += 1
         if self.depth > self.max_depth:
             raise Unsupported('inlining depth exceeded at %s' % fi.qualname)
